@@ -167,3 +167,27 @@ Module ScheduleDemo.
     src_log 0 (4 # 5) INR [IAlg ASuffStats 1 0; IAlg AMStep 1 0; IAlg AMStep 2 0] = None.
   Proof. reflexivity. Qed.
 End ScheduleDemo.
+
+(* ---------------------------------------------------------------------- the T2 checker reads the same machine *)
+Definition rec_obs (r : mrec) : nat * bool * bool := (m_iter r, m_memoryless r, m_flag r).
+
+Lemma srun_obs nb p s l : forall st st',
+  srun gen_memoryless gen_burn_flag gen_convex_R (fun k nb' => gen_step k nb' p) nb s st l = Some st' ->
+  map rec_obs (s_log st') = map rec_obs (s_log st) ++ mstep_obs nb l.
+Proof.
+  induction l as [|it t IH]; intros st st' H; simpl in H.
+  - inversion H; subst. simpl. now rewrite app_nil_r.
+  - destruct it as [a i k|o i].
+    + destruct a; simpl in H; try (rewrite (IH _ _ H); reflexivity).
+      destruct (s_fresh st) as [x|]; try discriminate.
+      rewrite (IH _ _ H). simpl s_log. rewrite map_app, <- app_assoc. reflexivity.
+    + simpl in H. rewrite (IH _ _ H). reflexivity.
+Qed.
+
+(* (counter, branch, flag) of the maximisations logged by `src_log` = what `check_msteps` compares the recorded fits with *)
+Theorem src_log_obs nb p s l log : src_log nb p s l = Some log -> map rec_obs log = mstep_obs nb l.
+Proof.
+  unfold src_log, mstep_log. intros H.
+  destruct (srun gen_memoryless gen_burn_flag gen_convex_R (fun k nb' => gen_step k nb' p) nb s (sst0) l) as [st'|] eqn:E; try discriminate.
+  inversion H; subst. apply (srun_obs nb p s l _ _ E).
+Qed.
